@@ -17,10 +17,13 @@ CLAIMED = {
             "theorem (proofs/ExprCorrect.v) covers, for the repaired model, every side-effect-free expression over literals, locals, register operands (sources, read-write, "
             "pairs, destinations read back, .new) and immediates; C02_operators_correct_partial gives it for the faithful configuration under a decidable guard. Per run: K2 ties model and code on "
             "the exhaustive depth-1 operator x type x type matrix + random trees; the differential oracle (C semantics vs RzIL semantics of "
-            "the real output, in Coq) decides every in-guard program.", "model + theorems + refutation witnesses; correspondence K2; differential oracle"),
+            "the real output, in Coq) decides every in-guard program. C02_operator_tables_are_the_compilers: model/OpTables.v (opcode per operator and operand type) is PROVED equal, for every operator "
+            "of the compiler's enums, every type and operand term, to the elaboration of the text the il_exec methods of BitOp / CompareOp / ArithmeticOp / BooleanOp emit; gen/OpTablesGen.v is "
+            "regenerated from those methods by symbolic execution on every run (tools/vt/tr_optables.py, fail-closed).", "model + theorems (incl. regenerated operator tables) + refutation witnesses; correspondence K2; differential oracle"),
     "C03": ("Partial. REFUTED for the faithful model (D3 widening fill bit; ?: arm conversion), witnesses by vm_compute; repaired model "
             "correct on them. Per run: K2 on all 8x8 type pairs x {cast, initialisation, assignment, store, register target, argument, "
-            "boolean source} + chains; differential oracle on real outputs inside the guard.", "model + refutation witnesses; K2; differential oracle"),
+            "boolean source} + cast chains + assignment-expression chains (a = b = x); differential oracle on real outputs inside the guard. General theorem C03_casts_correct_repaired (every cast inside any "
+            "pure expression, repaired model); C03_cast_table_is_the_compilers: OpTables.cast_il_exec = elaboration of what Cast.il_exec emits (regenerated on every run).", "model + theorems + refutation witnesses; K2; differential oracle"),
     "C05": ("Partial. THEOREM C05_statements_correct_repaired (proofs/StmtCorrect.v): for EVERY behaviour of the statement fragment (assignments of pure "
             "expressions to destination registers and locals, += -= *=, declarations with initialiser, stores, JUMP, blocks, if/else, sequences of any length "
             "and depth) the whole transformer (tlower_info incl. final sequence and register finalisation, all repairs on) emits an effect whose run from any "
@@ -35,14 +38,18 @@ CLAIMED = {
     "C07": ("Partial (architectural table and plugin contract are trusted, T4). Theorem C07_operand_binding: for EVERY ISA operand spelling of the finite grammar (4 classes x 17 "
             "access-letter forms, .new forms, N registers) and 18 aliases with and without _NEW, the compiler model binds the spelling to the architectural (slot letter, class, "
             ".new flag, signedness, width) of sem/CSem.v (vm_compute over the complete finite list); immediates signed exactly for r R s S. Per run: K2 + differential + sort oracle "
-            "on every spelling as read, written and read-after-write, loads/stores of every width/sign, jumps, PC alias.", "finite-domain theorem by vm_compute + K2 + differential oracle"),
+            "on every spelling as read, written and read-after-write, loads/stores of every width/sign, jumps, PC alias. C07_width_tables_are_the_compilers: reg_width / imm_signed agree with "
+            "get_value_type_from_reg_type / get_value_type_by_isa_imm EXECUTED on every ASCII letter x access terminal on every run (gen/OpTablesGen.v).", "finite-domain theorems by vm_compute (tables re-executed from the code each run) + K2 + differential oracle"),
     "C08": ("Partial. REFUTED (D5: on a fresh compiler `clo32(a) + clo32(b)` clobbers the live h_tmp0 - and the same program is translated correctly with another counter value, so "
             "the result depends on history; D15: early `return` does not end the callee, witness sub-routine with custom tables). Per run: K2 + differential oracle (callee executed "
             "under its C source, IL by substitution of the real compiled body) over argument/return conversions of all 8 types, 1-4 calls per expression, nested calls; sub-routines "
-            "registered through add_sub_routine inside histories.", "model + refutation witnesses; K2; differential oracle with real callee bodies"),
+            "registered through add_sub_routine inside histories. THEOREM C08_arguments_converted_to_parameter_types (argument-passing clause, repaired model): for every list of fragment argument values and "
+            "every list of integer parameter types the call is accepted, introduces no temporary, and each argument term evaluates in every state to the C value converted to the parameter's type.",
+            "model + theorem for argument passing + refutation witnesses; K2; differential oracle with real callee bodies"),
     "C09": ("Partial. REFUTED (D6 literal comparison / arithmetic folding / typing, D8 dead arm removes a live declaration); the literal typing "
             "of the repaired model is PROVED equal to C11 6.4.4.1 for all values and spellings. Per run: K2 + differential oracle + wf_body on "
-            "literal spellings x suffixes x operators and dead-arm programs.", "model + theorems + refutation witnesses; K2; differential + wf oracle"),
+            "literal spellings x suffixes x operators and dead-arm programs. ?: with a literal (folded) condition is inside the expression theorem; C09_literal_suffix_table_is_the_compilers "
+            "(suffix -> type table re-executed from get_value_type_by_c_number each run).", "model + theorems + refutation witnesses; K2; differential + wf oracle"),
     "C10": ("Partial. wf_effect (every arm, every loop body, one sort per local) is PROVED sound (proofs/SortSound.v: a well-sorted pure "
             "always evaluates to a value of its sort; sort consistency of locals is preserved by execution; progress with definite "
             "assignment). The property is REFUTED for the faithful model (D2, D14). Per run: K2; wf_effect is evaluated in Coq on the "
@@ -52,7 +59,12 @@ CLAIMED = {
             "differential oracle (C semantics of the behaviour text vs RzIL semantics of the real output over boundary/random states), guard flags and "
             "classes are reported. Theorems: the statement is REFUTED by a shipped instruction (L2_loadrub_pbr, D5); six shipped instructions "
             "(A2_combine_*, C4_fastcorner9*) were mistranslated by D1 and are repaired by a fix: commit (Example); the value theorem for pure "
-            "expressions of any depth (C01_expressions_partial). Floats and opaque plugin macros have no prescribed value (structural comparison only).",
+            "expressions of any depth (C01_expressions_partial). END-TO-END THEOREM C01_covered_behaviours_correct (FragCheck.covered_correct): `covered h prog` is a boolean "
+            "(sound and complete checker of the statement fragment + strict equality of the real and the repaired configuration's translation) evaluated by vm_compute on every accepted "
+            "part; where it is true the whole-transformer simulation theorem holds for the configuration the real compiler has (whole corpus: 980 of 1511 single-part behaviours; parts of "
+            "two-part definitions with the counter chained, covered_parts_correct). Instructions that use several compiler temporaries are additionally compiled at temporary-counter values "
+            "9 / 8 / 99 (digit-length boundaries) and compared with the model; where they disagree the tdefS oracle (temporary read before written) runs on the real output. "
+            "Floats and opaque plugin macros have no prescribed value (structural comparison only).",
             "model + theorems + refutation by a shipped instruction; K2 and differential oracle over the corpus"),
     "C11": ("Partial. wf_body (declared exactly once and before use, valid C identifiers, SEQN arity, final return) is a Coq function whose consequences for "
             "the run of a body are proved (sem/Own.v: nothing is used before its declaration, one allocation per owned variable); the harness evaluates it in Coq on "
